@@ -39,7 +39,7 @@ private:
         return (T_PointerType)i;
       }
     }
-    for (T_PointerTypeUnsigned i = 1; i < start; i++) {
+    for (T_PointerTypeUnsigned i = 1; i < start && i <= max_val; i++) {
       if (pointer_map.find(i) == pointer_map.end()) {
         counter = i + 1;
         return (T_PointerType)i;
